@@ -39,17 +39,18 @@ type iterView struct {
 
 // World is one DB instance plus its reference model.
 type World struct {
-	Cfg   Config
-	Stor  *vstor.Stor
-	DB    *leveldb.DB
-	M     *model.KV
-	Step  int
-	Snaps []*snapView
-	Iters []*iterView
-	Tr    *leveldb.Transaction
-	TrM   *model.KV
-	Viol  []string
-	Sync  bool // use WriteOptions{Sync:true}
+	Cfg         Config
+	Stor        *vstor.Stor
+	DB          *leveldb.DB
+	M           *model.KV
+	Step        int
+	heldBatches []heldBatch // batches passed to Write, kept by the "caller" with a copy of their contents
+	Snaps       []*snapView
+	Iters       []*iterView
+	Tr          *leveldb.Transaction
+	TrM         *model.KV
+	Viol        []string
+	Sync        bool // use WriteOptions{Sync:true}
 	// Scribble: overwrite argument buffers after each call and Get results after comparing (C20).
 	Scribble bool
 	// OpenOpts lets a check adjust options per open (e.g. filters).
@@ -241,6 +242,24 @@ func (w *World) mkBatch(mb model.Batch) (*leveldb.Batch, [][]byte) {
 	return b, bufs
 }
 
+// CheckHeldBatches: a batch handed to Write belongs to the caller again when Write returns,
+// whatever Write returned: it is still intact after any number of later operations.
+func (w *World) CheckHeldBatches() {
+	for _, h := range w.heldBatches {
+		if !bytes.Equal(h.dump, h.b.Dump()) {
+			w.violate("a batch passed to Write at step %d (which returned %v) was modified after Write returned: %d records / %d bytes now, %d bytes then", h.step, h.err, h.b.Len(), len(h.b.Dump()), len(h.dump))
+			return
+		}
+	}
+}
+
+type heldBatch struct {
+	b    *leveldb.Batch
+	dump []byte
+	step int
+	err  error
+}
+
 func (w *World) write(mb model.Batch) {
 	b, _ := w.mkBatch(mb)
 	dump := append([]byte(nil), b.Dump()...)
@@ -251,6 +270,10 @@ func (w *World) write(mb model.Batch) {
 	if w.Scribble {
 		b.Reset()
 		b.Put([]byte("zz-scribble"), []byte("zz"))
+	}
+	// the caller keeps the batch (as it is now) and looks at it again later
+	if len(w.heldBatches) < 8 {
+		w.heldBatches = append(w.heldBatches, heldBatch{b, append([]byte(nil), b.Dump()...), w.Step, err})
 	}
 	w.Issued = append(w.Issued, mb)
 	w.Acked = append(w.Acked, err == nil)
@@ -792,7 +815,8 @@ func (w *World) scanBoth(what string, it iterator.Iterator, want []model.Pair) {
 
 // CheckDB compares the DB's current contents with the model (point reads and a full scan).
 func (w *World) CheckDB() {
-	if w.DB == nil {
+	w.CheckHeldBatches()
+	if w.DB == nil || w.Failed() {
 		return
 	}
 	w.checkReads("db", w.DB, w.M)
